@@ -379,7 +379,9 @@ func (p *Policy) sanitize(r io.Reader, w io.Writer) error {
 						break
 					}
 				}
-				if _, ok := p.setOfElementsToSkipContent[token.Data]; ok && !match {
+				// the start tag of a void element did not start a skipped
+				// region, its closing tag (<frame></frame>) must not end one
+				if _, ok := p.setOfElementsToSkipContent[token.Data]; ok && !match && !voidElement(token.Data) {
 					skippingElementsCount--
 					if skippingElementsCount == 0 {
 						skipElementContent = false
